@@ -572,7 +572,7 @@ func TestC03Programs(t *testing.T) {
 		// replay files of driver (a) are lists of op lists; ours are objects
 		var probe []json.RawMessage
 		for _, raw := range cfg.ReplayInputs(t) {
-			if len(raw) > 0 && raw[0] == '{' {
+			if len(raw) > 0 && raw[0] == '{' && !isMsgsInput(raw) { // objects with "msgs" belong to driver (c)
 				probe = append(probe, raw)
 			}
 		}
